@@ -11,4 +11,25 @@ func init() {
 			"(2) the numeric fallback agrees on prefix, base and bit size and is accepted exactly outside [minCode,maxCode], every other text is rejected with *c unwritten — "+
 			"with (1) this gives the round trip for all 2^32 values by construction; (3) connectCodeToHTTP returns only constants in [400,599] for all 2^32 codes.",
 		"base64 round trip itself (stdlib), percent round trip as an inductive proof over strings, UTF-8 handling of the replacement rune.")
+
+	prop("C16", "Interceptors nest in declaration order however options are grouped",
+		[]string{"chain-parity", "nil-skipped", "chain-concat-order", "wrap-once"},
+		"(1) reversal parity between the chain constructor and all three Wrap* loops makes the first-declared interceptor outermost; (2) nil entries are skipped under an explicit != nil test; "+
+			"(3) chainWith yields [current]++own list for every (current nil?, len) case and its result replaces the config's interceptor; option combinators and config constructors apply members in ascending order, "+
+			"so any grouping/nesting flattens to declaration order; (4) every Handler constructor and client conn opener applies the configured interceptor exactly once, outside loops, guarded only by the nil check.",
+		"the observable event order in running calls; behaviour of user-written interceptors.")
+
+	prop("C19", "Handler panics are converted by WithRecover exactly as configured",
+		[]string{"recover-shape", "recover-installed", "chain-parity", "wrap-once"},
+		"In both closures of the interceptor WithRecover installs (unary and streaming handler): the panicked flag protocol (true at the call of next, cleared only on normal return, deferred function registered before next), "+
+			"recover() called directly in the deferred function, the recovery function called exactly once with the recovered value on every flag-true path that is not the abort sentinel (the decision never depends on r != nil, so panic(nil) is covered), "+
+			"its result assigned to the closure's named error result, the sentinel compared with == and re-panicked with the same value, nothing touched on the no-panic path; WithRecover installs that interceptor via WithInterceptors; position among other interceptors follows C16's rules.",
+		"what the client receives after responses were already sent (protocol carriers, see C02), runtime behaviour of recover across goroutines, RST mapping of the abort sentinel.")
+
+	prop("C07", "Whatever a client sends, the handler rejects it safely",
+		[]string{"serve-guards", "close-once-after-accept", "receive-before-user", "no-explicit-panic"},
+		"(1) ServeHTTP reaches user code at one call site, outside loops, only under: POST, not (bidi over HTTP/1.x), protocol selected by exact Content-Type lookup, successful NewConn, valid timeout; rejected requests get 405+Allow / 505 / 415+Accept-Post and never reach user code; "+
+			"(2) once a protocol is selected every exit passes exactly one Close of the conn, and each handler NewConn fails only after Close(non-nil error), so the answer is always formatted by the selected protocol; "+
+			"(3) a message holder passed to Receive is handed to user code only on paths where Receive returned nil; (4) no explicit panic outside the recover interceptor's re-panic.",
+		"well-formedness of the whole response for arbitrary bytes, absence of all run-time panics (nil dereference in general), termination, the exact error code of every malformed-input class.")
 }
